@@ -991,4 +991,49 @@ theorem gcanon_run (ps : List (Int × Int)) (W : Int) (hpos : ∀ p ∈ ps, 0 < 
     rw [picks_succ_right, stateAfter_succ_right, hp]
     exact hc
 
+/-! ### slow start -/
+
+theorem map_modify_invariant {α β} (g : α → β) (f : α → α) (h : ∀ x, g (f x) = g x) (l : List α) (i : Nat) :
+    (l.modify i f).map g = l.map g := by
+  induction l generalizing i with
+  | nil => simp
+  | cons x xs ih => cases i with
+    | zero => simp [h]
+    | succ i => simp [ih]
+
+theorem bump_weight (b : Backend) : (bump b).weight = b.weight := by
+  unfold bump; split <;> rfl
+
+theorem bump_avail (b : Backend) : (bump b).avail = b.avail := by
+  unfold bump; split <;> rfl
+
+theorem stepState_weight (bs : List Backend) :
+    (stepState bs).map (fun b => (b.weight, b.avail)) = bs.map (fun b => (b.weight, b.avail)) := by
+  unfold stepState
+  cases hs : smoothStep bs with
+  | none => rfl
+  | some r =>
+    obtain ⟨m, bs'⟩ := r
+    obtain ⟨_, _, _, _, hbs'⟩ := smoothStep_some bs m bs' hs
+    simp only [hbs']
+    rw [map_modify_invariant _ _ (fun x => by simp [subTotal])]
+    simp [List.map_map, Function.comp_def, bump_weight, bump_avail]
+
+theorem stepState_length (bs : List Backend) : (stepState bs).length = bs.length := by
+  have := congrArg List.length (stepState_weight bs)
+  simpa using this
+
+theorem ssBackends_ssPut (l : List SS) (bs : List Backend) (h : bs.length = l.length) :
+    ssBackends (ssPut l bs) = bs := by
+  unfold ssBackends ssPut
+  induction l generalizing bs with
+  | nil => cases bs with
+    | nil => rfl
+    | cons b bs => simp at h
+  | cons s l ih => cases bs with
+    | nil => simp at h
+    | cons b bs => simp at h; simp [ih bs h]
+
+theorem nsPerSec_pos : 0 < nsPerSec := by decide
+
 end BfeVerif.C01
